@@ -498,6 +498,24 @@ def check_write_history(spec, ops, total, dtypes, tmpdir, model=None):
         for step, (how, sub, ncell) in enumerate(ops):
             counts = tuple(segmodel._count(n, d) for n, d in zip(seg.formatted_shape if how == 'w' else seg.raw_shape, sub))
             data = numpy.zeros(counts, dtype=seg.formatted_dtype if how == 'w' else seg.raw_dtype)
+            if (step + len(ops) + total) % 3 == 0 and data.size:
+                # a chunk the segment must REFUSE (wrong number of dimensions) offered first: a refused chunk is not a written chunk - the
+                # accounting after the partition is the same as without the refused call
+                # (for a complex formatted type also a real chunk of the right shape: that one is refused further down, by the parent)
+                bads = [numpy.zeros(data.shape + (2, 3), dtype=data.dtype)]
+                if how == 'w' and numpy.dtype(seg.formatted_dtype).kind == 'c':
+                    bads.append(numpy.zeros(data.shape, dtype='float32'))
+                refused_ok = True
+                for bad in bads:
+                    try:
+                        (seg.write if how == 'w' else seg.write_raw)(bad, subscript=segmodel.py_sub(sub))
+                        refused_ok = False
+                    except Exception:
+                        pass
+                case = dict(case, refused_chunk_before_step=step)
+                if not refused_ok:
+                    fails.append(dict(case, step=step, msg=f'a chunk of shape {bad.shape} for the region {segmodel.sub_token(sub)} of shape {data.shape} was accepted'))
+                    break
             try:
                 if how == 'w':
                     seg.write(data, subscript=segmodel.py_sub(sub))
